@@ -71,12 +71,16 @@ func rootCause(failure string, tm *tmpl, rv, ov *view, trans, ident bool, fv int
 	case in(m, "Dense.Stack", "Dense.Augment") && tm.pos == "b" && in(failure, "silent-corruption", "write-before-panic"):
 		return "dense-stack-augment-aliasing-unhandled" // F13
 	case corrupt && diffStride && !trans && (ov.k == kDense || ov.k == kVec) &&
-		(m == "Dense.Copy" || (in(m, "Dense.Stack", "Dense.Augment") && tm.pos == "a") || (m == "Dense.Pow" && fv == 1) || m == "Dense.Exp" || (m == "Dense.Solve" && tm.pos == "b" && ov.k == kVec)):
+		(m == "Dense.Copy" || (in(m, "Dense.Stack", "Dense.Augment") && tm.pos == "a") || (m == "Dense.Pow" && fv == 1) || m == "Dense.Exp" || (m == "Dense.Solve" && tm.pos == "b" && ov.k == kVec) ||
+			// ...SolveTo of the factorization types copy b into dst with Dense.Copy.
+			(strings.Contains(m, ".SolveTo") && tm.pos == "b")):
 		return "dense-copy-differing-strides" // F14
 	case m == "Dense.Exp" && corrupt && ov.k == kDense && !trans && !diffStride:
 		return "dense-exp-rereads-operand-after-write" // F15
 	case in(m, "Dense.Exp", "Dense.Pow", "Dense.RankOne") && failure == "ident-panic" && ov.k == kDense && trans:
 		return "dense-own-transpose-panics" // F16
+	case in(m, "Cholesky.SolveTo", "BandCholesky.SolveTo", "PivotedCholesky.SolveTo") && failure == "ident-panic" && ov.k == kDense && trans:
+		return "cholesky-solveto-own-transpose-panics" // F27
 	case m == "Dense.RankOne" && tm.pos == "a" && corrupt && (isTri || ov.k == kSym) && fv == fvBasic:
 		return "dense-rankone-nondense-a-unchecked" // F17
 	case m == "Dense.Outer" && failure == "write-before-panic":
